@@ -638,6 +638,8 @@ def r04_18(ctx) -> None:
 
 
 def run(ctx) -> None:
+    from .c14 import r14_6_7 as _r14_6_7
+    ctx.guard_as("R04.19", _r14_6_7, "jwe")  # a header member the library adds (epk, iv, tag, kid) replaces what the position held: re-encrypting an object works
     ctx.guard(r04_18)
     from .common import member_crossing
     ctx.guard(member_crossing, "R04.17", "jwe")  # named members are filled from the value of the same name (generic crossing rule, rules/common.py)
